@@ -470,6 +470,9 @@ func (c *Chan[T]) Recv() (T, bool) {
 	if !o.rok {
 		return zero, false
 	}
+	if o.rval == nil {
+		return zero, true // a nil interface value (e.g. a nil error) was sent
+	}
 	return o.rval.(T), true
 }
 
